@@ -12,7 +12,7 @@ def child(mode, case, timeout):
     env = dict(os.environ, RUST_BACKTRACE="0")
     try:
         r = subprocess.run([vlib.BIN, "c10", mode, arg], stdout=subprocess.PIPE, stderr=subprocess.DEVNULL, text=True,
-                           timeout=timeout, env=env)
+                           timeout=timeout, env=env, preexec_fn=vlib.limit_memory)
     except subprocess.TimeoutExpired:
         return {"why": ["did not return within %d s (hang)" % timeout], "events": []}
     for line in r.stdout.splitlines():
